@@ -50,8 +50,8 @@ def _pt(p):
     return (float(p[0]), float(p[1]), float(p[2]))
 
 
-def _pclose(a, b):
-    return all(_close(x, y) for x, y in zip(a, b))
+def _pclose(a, b, tol=TAU):
+    return all(_close(x, y, tol) for x, y in zip(a, b))
 
 
 def _unit(v):
@@ -61,14 +61,14 @@ def _unit(v):
     return tuple(x / l for x in v)
 
 
-def _match_sets(A, B):
-    """bijection between two lists of points within TAU"""
+def _match_sets(A, B, tol=TAU):
+    """bijection between two lists of points within tol"""
     if len(A) != len(B):
         return False
     B = list(B)
     for a in A:
         for i, b in enumerate(B):
-            if _pclose(a, b):
+            if _pclose(a, b, tol):
                 del B[i]
                 break
         else:
@@ -76,8 +76,8 @@ def _match_sets(A, B):
     return True
 
 
-def same(a, b, angle=False):
-    """do two answers denote the same thing (A.4)"""
+def same(a, b, angle=False, tau=TAU):
+    """do two answers denote the same thing (A.4); tau = absolute tolerance on coordinates"""
     if isinstance(a, Raised) or isinstance(b, Raised):
         return isinstance(a, Raised) and isinstance(b, Raised) and a.cls == b.cls
     if a is None or b is None:
@@ -94,43 +94,41 @@ def same(a, b, angle=False):
     if ta != tb:
         return False
     if ta in ("Point", "Vector"):
-        return _pclose(_pt(a), _pt(b))
+        return _pclose(_pt(a), _pt(b), tau)
     if ta == "Segment":
         a0, a1, b0, b1 = _pt(a.start_point), _pt(a.end_point), _pt(b.start_point), _pt(b.end_point)
-        return (_pclose(a0, b0) and _pclose(a1, b1)) or (_pclose(a0, b1) and _pclose(a1, b0))
+        return (_pclose(a0, b0, tau) and _pclose(a1, b1, tau)) or (_pclose(a0, b1, tau) and _pclose(a1, b0, tau))
     if ta == "HalfLine":
         ua, ub = _unit(_pt(a.vector)), _unit(_pt(b.vector))
         if ua is None or ub is None:  # degenerate (zero direction): compare the raw data
-            return ua is None and ub is None and _pclose(_pt(a.point), _pt(b.point)) and _pclose(_pt(a.vector), _pt(b.vector))
-        return _pclose(_pt(a.point), _pt(b.point)) and _pclose(ua, ub)
+            return ua is None and ub is None and _pclose(_pt(a.point), _pt(b.point), tau) and _pclose(_pt(a.vector), _pt(b.vector), tau)
+        return _pclose(_pt(a.point), _pt(b.point), tau) and _pclose(ua, ub, tau)
     if ta == "Line":
         ua, ub = _unit(_pt(a.dv)), _unit(_pt(b.dv))
         if ua is None or ub is None:
-            return ua is None and ub is None and _pclose(_pt(a.sv), _pt(b.sv)) and _pclose(_pt(a.dv), _pt(b.dv))
-        if not (_pclose(ua, ub) or _pclose(ua, tuple(-x for x in ub))):
+            return ua is None and ub is None and _pclose(_pt(a.sv), _pt(b.sv), tau) and _pclose(_pt(a.dv), _pt(b.dv), tau)
+        if not (_pclose(ua, ub, tau) or _pclose(ua, tuple(-x for x in ub), tau)):
             return False
         fa = _foot(_pt(a.sv), ua)
         fb = _foot(_pt(b.sv), ub)
-        return _pclose(fa, fb)
+        return _pclose(fa, fb, tau)
     if ta == "Plane":
         ua, ub = _unit(_pt(a.n)), _unit(_pt(b.n))
         if ua is None or ub is None:
-            return ua is None and ub is None and _pclose(_pt(a.p), _pt(b.p)) and _pclose(_pt(a.n), _pt(b.n))
+            return ua is None and ub is None and _pclose(_pt(a.p), _pt(b.p), tau) and _pclose(_pt(a.n), _pt(b.n), tau)
         da = sum(x * y for x, y in zip(ua, _pt(a.p)))
         db = sum(x * y for x, y in zip(ub, _pt(b.p)))
-        if _pclose(ua, ub):
-            return _close(da, db)
-        if _pclose(ua, tuple(-x for x in ub)):
-            return _close(da, -db)
+        if _pclose(ua, ub, tau):
+            return _close(da, db, tau)
+        if _pclose(ua, tuple(-x for x in ub), tau):
+            return _close(da, -db, tau)
         return False
     if ta == "ConvexPolygon":
-        return _match_sets([_pt(p) for p in a.points], [_pt(p) for p in b.points])
+        return _match_sets([_pt(p) for p in a.points], [_pt(p) for p in b.points], tau)
     if ta == "ConvexPolyhedron":
-        return len(a.convex_polygons) == len(b.convex_polygons) and _match_sets(
-            sorted(_pt(p) for p in a.point_set), sorted(_pt(p) for p in b.point_set)
-        )
+        return len(a.convex_polygons) == len(b.convex_polygons) and _match_sets(sorted(_pt(p) for p in a.point_set), sorted(_pt(p) for p in b.point_set), tau)
     if isinstance(a, (tuple, list)) and isinstance(b, (tuple, list)):
-        return len(a) == len(b) and all(same(x, y) for x, y in zip(a, b))
+        return len(a) == len(b) and all(same(x, y, tau=tau) for x, y in zip(a, b))
     if isinstance(a, str):
         return a == b
     return a == b
